@@ -1,6 +1,6 @@
 """Shared machinery of /verif/check: scratch dirs, harness build, TLC runs, trace validation,
 fingerprints / known findings, evidence files.  Standard library only."""
-import json, os, re, shutil, subprocess, sys, tempfile, time, hashlib, concurrent.futures
+import json, os, re, shutil, subprocess, sys, tempfile, threading, time, hashlib, concurrent.futures
 
 VERIF = os.path.dirname(os.path.dirname(os.path.abspath(__file__)))
 REPO = os.environ.get("VERIF_REPO", "/repo")
@@ -75,7 +75,7 @@ class Run:
         return p.stdout
 
     # ---------------------------------------------------------------- TLC
-    def tlc(self, module, cfg=None, workers=None, extra=(), timeout=1500, files=(), name=None, heap=None):
+    def tlc(self, module, cfg=None, workers=None, extra=(), timeout=1500, files=(), name=None, heap=None, sink=None):
         """Run TLC on spec/<module>.tla in a private copy of spec/.  Returns dict with stdout lines,
         JSON records printed by the spec, state counts and the violated property (if any)."""
         name = name or module
@@ -92,19 +92,34 @@ class Run:
         cmd += ["-cp", TLA_CP, "tlc2.TLC", "-workers", str(workers or 1), "-metadir", os.path.join(d, "meta"),
                 "-config", cfg] + list(extra) + [module + ".tla"]
         t0 = time.time()
+        # TLC's output is read line by line: the JSON records a specification prints can run to gigabytes; they go to
+        # `sink` when one is given, else into res["records"]; everything else (a few hundred lines) is kept as text
+        p = subprocess.Popen(cmd, cwd=d, stdout=subprocess.PIPE, stderr=subprocess.STDOUT, text=True, bufsize=1 << 20)
+        timer = threading.Timer(timeout, p.kill)
+        timer.start()
+        res = dict(name=name, rc=None, out="", wall=0.0, dir=d, records=[], generated=0, distinct=0, violated=None, error=None)
+        other = []
         try:
-            p = subprocess.run(cmd, cwd=d, stdout=subprocess.PIPE, stderr=subprocess.STDOUT, text=True, timeout=timeout)
-        except subprocess.TimeoutExpired:
+            for line in p.stdout:
+                if line.startswith('"{'):
+                    try:
+                        rec = json.loads(json.loads(line))
+                    except Exception:
+                        continue
+                    if sink is not None:
+                        sink(rec)
+                    else:
+                        res["records"].append(rec)
+                elif len(other) < 20000:
+                    other.append(line)
+            p.wait()
+        finally:
+            expired = not timer.is_alive()
+            timer.cancel()
+        if expired and p.returncode != 0:
             raise Broken("TLC timeout on %s" % name)
-        out = p.stdout
-        res = dict(name=name, rc=p.returncode, out=out, wall=time.time() - t0, dir=d, records=[], generated=0, distinct=0,
-                   violated=None, error=None)
-        for line in out.splitlines():
-            if line.startswith('"{'):
-                try:
-                    res["records"].append(json.loads(json.loads(line)))
-                except Exception:
-                    pass
+        out = "".join(other)
+        res["rc"], res["out"], res["wall"] = p.returncode, out, time.time() - t0
         m = re.findall(r"(\d+) states generated, (\d+) distinct states found", out)
         if m:
             res["generated"], res["distinct"] = int(m[-1][0]), int(m[-1][1])
@@ -119,10 +134,10 @@ class Run:
         shutil.rmtree(os.path.join(d, "meta"), ignore_errors=True)
         return res
 
-    def model_check(self, module, cfg=None, workers=None, extra=(), timeout=1500, name=None, expect_ok=True, files=()):
+    def model_check(self, module, cfg=None, workers=None, extra=(), timeout=1500, name=None, expect_ok=True, files=(), sink=None):
         """A model-checking run of the specification itself.  A violation here means the SPEC (or its
         bounded instance) is wrong -> the check is broken, not the code."""
-        r = self.tlc(module, cfg, workers or min(NCPU, 8), extra, timeout, name=name, files=files)
+        r = self.tlc(module, cfg, workers or min(NCPU, 8), extra, timeout, name=name, files=files, sink=sink)
         if r["error"]:
             raise Broken("TLC error in %s:\n%s" % (r["name"], r["error"]))
         if expect_ok and r["violated"]:
